@@ -159,6 +159,11 @@ fn run_write(s: &S12, word: Wd, ops: &[WOp12], ctx: &mut Ctx) {
 }
 
 fn gen_slice(rng: &mut Rng) -> Vec<u8> {
+    if rng.chance(1, 250) {
+        // scale: a slice longer than 2^16 bytes (or just above 255 / 4096)
+        let len = *rng.pick(&[256usize, 257, 4095, 4097, 65_535, 65_537, 70_001]);
+        return (0..len).map(|_| rng.next() as u8).collect();
+    }
     let len = match rng.below(8) {
         0 => 0,
         1 => rng.usize_range(1, 7),
@@ -208,7 +213,7 @@ impl Family for C12 {
         } else {
             let kind = RdKind::ALL[((index / 4) % 5) as usize];
             let wb = kind.word_bits();
-            let nbytes = (rng.usize_range(2, 48) * wb / 8).min(320);
+            let nbytes = if rng.chance(1, 150) { 72_000 / (wb / 8) * (wb / 8) } else { (rng.usize_range(2, 48) * wb / 8).min(320) };
             let pi = rng.below(5) as usize;
             let image = gen_image(rng, PATTERNS[pi], nbytes);
             let bsel = rng.below(8);
